@@ -8,8 +8,10 @@ the real library.  Their answers are compared with
   (L) the implication lattice on the library's own answers                                   -> violation
   (M) the Lean model: `jr` driver command = checkers as the code enumerates groups (distinct entries,
       summed multiplicity) and the definitions over the expanded list                        -> disagreement
-  (E) outcomes of the Method of Equal Shares: Cost_Sat => EJR-up-to-any, Cardinality_Sat =>
-      EJR-up-to-one (library checker and brute-force definition)                              -> violation
+  (E) outcomes of the Method of Equal Shares — resolute, every irresolute outcome, iterated
+      (voter_budget_increment 1, 1/2 or 1/3) and iterated irresolute: Cost_Sat => EJR-up-to-any,
+      Cardinality_Sat => EJR-up-to-one w.r.t. the original instance, and feasible for it
+      (library checker and brute-force definition)                                            -> violation
   (G) the enumeration the checkers loop over: `cohesive_groups(instance, profile)` as a multiset of (group as positions
       in the profile, project set) pairs against an independent brute-force enumeration (violation) and against the Lean
       model `JR.cohesiveGroupsBy` (driver command `cohesive`; disagreement); `is_cohesive_approval` /
@@ -38,8 +40,10 @@ ASSUMPTIONS = [
 ]
 TRUSTED = ["Equal Shares => EJR-up-to-any (Cost_Sat) / EJR, hence up-to-one (Cardinality_Sat) is proved on the models MES.run and JR.Satisfies "
            "(Properties/C14Mes.lean: mes_EJR_any_cost, mes_EJR_cardinality, mes_EJR_one_cardinality, mes_EJR_x; positive costs, tie-breaking "
-           "function returning a non-empty list of tied projects); the run of the library is tied to MES.run by C02, and (E) tests the clause "
-           "on the library's own outcomes"]
+           "function returning a non-empty list of tied projects), and for the irresolute, iterated (voter_budget_increment) and iterated "
+           "irresolute rule in Properties/C14MesVariants.lean (mes_irresolute_EJR_*, mes_iterated_EJR_*, mes_iteratedAll_EJR_*, "
+           "mes_iteratedLazy_EJR_x; conclusions w.r.t. the ORIGINAL budget limit); the run of the library is tied to MES.run / runAll / iterated "
+           "by C02, C08, C09, and (E) tests the clause on the library's own outcomes in all four modes"]
 
 KEYS = ["core", "core_any", "core_one", "sEJR", "EJR", "EJR_any", "EJR_one", "PJR", "PJR_any", "PJR_one"]
 UP = {"core": None, "core_any": "any", "core_one": "one", "sEJR": None, "EJR": None, "EJR_any": "any", "EJR_one": "one",
@@ -292,36 +296,73 @@ def check_case(ctx, case: Case, lines, alloc_cap=None, do_model=True):
         mes_part(ctx, case, builds)
 
 
-def mes_part(ctx, case, builds):
+MES_MODES = ("resolute", "irresolute", "iterated", "iterated_irresolute")
+MES_INCS = (F(1), F(1, 2), F(1, 3))
+
+
+def mes_outcomes(inst, prof, sc, mode, inc):
+    """the allocations the library returns in the given mode, as a list of allocations"""
     from pabutools.rules import method_of_equal_shares
+
+    kw = {}
+    if mode in ("irresolute", "iterated_irresolute"):
+        kw["resoluteness"] = False
+    if mode in ("iterated", "iterated_irresolute"):
+        kw["voter_budget_increment"] = core.to_num(inc)
+    out = method_of_equal_shares(inst, prof, sat_class=sc, **kw)
+    return list(out) if kw.get("resoluteness") is False else [out]
+
+
+def mes_part(ctx, case, builds):
+    """(E) every allocation Equal Shares returns — resolute, irresolute (every allocation of the list), iterated
+    (`voter_budget_increment`) and iterated irresolute — passes the notion of its measure, judged against the ORIGINAL
+    instance (Properties/C14Mes.lean, C14MesVariants.lean)"""
     import pabutools.analysis.justifiedrepresentation as jr
 
+    inc = MES_INCS[case.seed % len(MES_INCS)] if isinstance(case.seed, int) else MES_INCS[0]
     for sat, key, checker in (("Cost_Sat", "EJR_any", jr.is_EJR_any_approval), ("Cardinality_Sat", "EJR_one", jr.is_EJR_one_approval)):
         defs = None
         for multi in (False, True):
             inst, projs, prof, _ = builds[multi]
             sc = core.sat_class(sat)
-            try:
-                W = method_of_equal_shares(inst, prof, sat_class=sc)
-            except Exception as e:  # noqa: BLE001
-                ctx.violations.append({"what": f"method_of_equal_shares raised {e!r}", "case": case.to_json(), "cfg": {"sat": sat, "multi": multi},
-                                       "sig": {"call": "method_of_equal_shares", "sat": sat, "multi": multi, "kind": "mes"}})
-                continue
-            Wn = sorted(p.name for p in W)
-            ctx.evaluations += 1
-            ctx.count("mes", sat)
-            ok_lib = bool(checker(inst, prof, sc, list(W)))
-            if defs is None:
-                defs = Defs(case, sat)
-            ok_def = defs.evaluate(Wn)[key]
-            if len(Wn) > 0 and defs.any_cohesive:
-                ctx.nontrivial.add((case.key(), "mes", sat, multi))
-            if not (ok_lib and ok_def):
-                ctx.violations.append({
-                    "what": f"Equal Shares outcome {Wn} with {sat} fails {key} (library checker: {ok_lib}, definition: {ok_def})",
-                    "case": case.to_json(), "cfg": {"sat": sat, "multi": multi, "W": Wn, "mes": True}, "impl": ok_lib, "expected": True,
-                    "sig": {"call": "method_of_equal_shares", "notion": key, "sat": sat, "multi": multi, "kind": "mes"},
-                })
+            plain = None
+            for mode in MES_MODES:
+                cfg = {"sat": sat, "multi": multi, "mes": True, "mode": mode, "inc": q2s(inc)}
+                try:
+                    Ws = mes_outcomes(inst, prof, sc, mode, inc)
+                except Exception as e:  # noqa: BLE001
+                    ctx.violations.append({"what": f"method_of_equal_shares ({mode}) raised {e!r}", "case": case.to_json(), "cfg": cfg,
+                                           "sig": {"call": "method_of_equal_shares", "sat": sat, "multi": multi, "kind": "mes", "mode": mode}})
+                    continue
+                ctx.count("mes", sat)
+                ctx.count("mes_mode", mode)
+                names = [sorted(p.name for p in W) for W in Ws]
+                if mode == "resolute":
+                    plain = names[0]
+                elif mode == "irresolute":
+                    ctx.count("mes_irresolute_outcomes", str(min(len(names), 4)))
+                elif mode == "iterated" and plain is not None:
+                    ctx.count("mes_iterated_vs_plain", "differs" if names[0] != plain else "same")
+                if defs is None:
+                    defs = Defs(case, sat)
+                for W, Wn in zip(Ws, names):
+                    ctx.evaluations += 1
+                    ok_lib = bool(checker(inst, prof, sc, list(W)))
+                    ok_def = defs.evaluate(Wn)[key]
+                    ok_feas = sum((case.cost[p] for p in Wn), F(0)) <= case.budget
+                    if len(Wn) > 0 and defs.any_cohesive:
+                        if mode == "resolute":
+                            ctx.nontrivial.add((case.key(), "mes", sat, multi))
+                        elif (mode == "irresolute" and len(names) >= 2) or (mode != "irresolute" and plain is not None and Wn != plain):
+                            # a real tie / an iterated run that went beyond the plain rule's outcome
+                            ctx.nontrivial.add((case.key(), "mes", sat, multi, mode, tuple(Wn)))
+                    if not (ok_lib and ok_def and ok_feas):
+                        ctx.violations.append({
+                            "what": f"Equal Shares ({mode}) outcome {Wn} with {sat} fails {key} (library checker: {ok_lib}, definition: {ok_def}, "
+                                    f"feasible: {ok_feas})",
+                            "case": case.to_json(), "cfg": dict(cfg, W=Wn), "impl": ok_lib, "expected": True,
+                            "sig": {"call": "method_of_equal_shares", "notion": key, "sat": sat, "multi": multi, "kind": "mes", "mode": mode},
+                        })
 
 
 def flush_model(ctx, lines):
@@ -523,15 +564,17 @@ def replay(payload):
     prof = core.build_profile(case, inst, projs, multi=multi)
     defs = Defs(case, sat)
     if cfg.get("mes"):
-        from pabutools.rules import method_of_equal_shares
         import pabutools.analysis.justifiedrepresentation as jr
+        from ..core import s2q
 
         sc = core.sat_class(sat)
-        W = method_of_equal_shares(inst, prof, sat_class=sc)
+        mode = cfg.get("mode", "resolute")
+        Ws = mes_outcomes(inst, prof, sc, mode, s2q(cfg["inc"]) if "inc" in cfg else F(1))
         key = "EJR_any" if sat == "Cost_Sat" else "EJR_one"
         chk = jr.is_EJR_any_approval if sat == "Cost_Sat" else jr.is_EJR_one_approval
-        ok = bool(chk(inst, prof, sc, list(W))) and defs.evaluate(sorted(p.name for p in W))[key]
-        return ok, ("Equal Shares outcome passes " + key) if ok else ("still fails: Equal Shares outcome fails " + key)
+        ok = all(bool(chk(inst, prof, sc, list(W))) and defs.evaluate(sorted(p.name for p in W))[key]
+                 and sum((case.cost[p.name] for p in W), F(0)) <= case.budget for W in Ws)
+        return ok, (f"Equal Shares ({mode}) outcomes pass " + key) if ok else (f"still fails: an Equal Shares ({mode}) outcome fails " + key)
     W = cfg["W"]
     got = impl_answers(case, inst, prof, projs, sat, W)
     want = defs.evaluate(W)
